@@ -279,6 +279,19 @@ def iroot(a, b):
     return lo
 
 
+def fhex(x):
+    import struct
+    return "(float " + struct.pack(">d", x).hex() + ")"
+
+
+def to_float_oracle(a):
+    """int -> float must be the nearest double (ties to even), exact when representable; beyond the range: an error value"""
+    try:
+        return fhex(float(a))
+    except OverflowError:
+        return ERR
+
+
 def pow_exp(rng, a, lang=False):
     """exponents that keep a**b computable: huge exponents only for bases 0, 1, -1"""
     if abs(a) <= 1:
@@ -548,6 +561,36 @@ def run(chk):
         lcases.append(("route.text", f"to_int(to_str({lit(a)})) == {lit(a)}", None, o_bool(True), (a,)))
         r2 = rng.choice([("x", 16), ("o", 8), ("b", 2), ("", 10)])
         lcases.append(("route.format", f'to_int(format({lit(a)}, "{r2[0]}"), {r2[1]}) == {lit(a)}', None, o_bool(True), (a, r2[1])))
+    # float conversions and chr (Python oracle only; float results are outside the Lean model)
+    from fractions import Fraction
+    fl_pool = pool + [2**53 + 1, 2**53 + 3, 2**54 + 2, 2**64 + 2049, 2**64 + 2048, 2**64 + 2047, -(2**64 + 2049), 2**63 + 1025,
+                      2**200 + 1, 2**200 + 2**147, 2**200 + 2**147 + 1, 2**1023, 2**1024 - 2**970 - 1, 2**1024 - 2**970, 2**1024, 10**400]
+    for _ in range(3 * n):
+        a = rng.choice(fl_pool)
+        if rng.random() < 0.3:
+            a = rng.getrandbits(rng.choice([54, 64, 65, 100, 130, 1000])) * rng.choice([1, -1])
+        lcases.append(("to_float", f"to_float({lit(a)})", None, to_float_oracle(a), (a,)))
+        try:
+            fa = float(a)
+            fop, pyf = rng.choice([("floor", math.floor), ("ceil", math.ceil), ("trunc", math.trunc)])
+            lcases.append(("float." + fop, f"{fop}(to_float({lit(a)}) / 2.0)", None, o_int(pyf(fa / 2.0)), (a,)))
+        except OverflowError:
+            pass
+        b = rng.choice(pool)
+        if b != 0:
+            q = Fraction(a, b)
+            try:
+                f = a / b
+                if Fraction(f) == q:      # the quotient is a double: it must be returned exactly
+                    lcases.append(("true_div.exact", f"{lit(a)} / {lit(b)}", None, fhex(f), (a, b)))
+            except OverflowError:
+                pass
+        else:
+            lcases.append(("true_div.zero", f"{lit(a)} / {lit(b)}", None, ERR, (a, b)))
+        c = rng.choice([0, 65, 0x7f, 0xe9, 0x3b1, 0xd7ff, 0xd800, 0xdfff, 0xe000, 0xffff, 0x10000, 0x1f600, 0x10ffff, 0x110000,
+                        2**32 - 1, 2**32, 2**32 + 65, -1, 2**64, -2**64, rng.randrange(0x110000)])
+        ok = 0 <= c <= 0x10ffff and not (0xd800 <= c <= 0xdfff)
+        lcases.append(("chr", f"chr({lit(c)})", None, dump_str(chr(c)) if ok else ERR, (c,)))
     dumps = eval_exprs([c[1] for c in lcases])
     mlines = [(i, c[2]) for i, c in enumerate(lcases) if c[2]]
     mres = dict(zip([i for i, _ in mlines], run_model([l for _, l in mlines])))
